@@ -293,7 +293,7 @@ def body(case, ctx):
 
 
 def shards(tier, seed):
-    n = 25 if tier == 'quick' else 700
+    n = 25 if tier == 'quick' else 3000
     return [{'n': n} for _ in range(16)]
 
 
